@@ -181,7 +181,7 @@ def parseLines : List Bytes → Option (List Loaded)
     | .record r => (parseLines ls).map (r :: ·)
 
 /-- `Reflog.load` on the bytes of `logs/HEAD` -/
-def parse (file : Bytes) : Option (List Loaded) := parseLines (Bytes.scanLines file)
+def parse (file : Bytes) : Option (List Loaded) := (Bytes.scanLinesE file).bind parseLines
 
 /-- `Reflog.GetRecord` -/
 def get (rs : List Loaded) (n : Nat) : Option Loaded :=
